@@ -28,6 +28,16 @@ def handleQuitIndex (args : List Sx) : String :=
     | _, _, _ => "bad-op"
   | _ => "bad-op"
 
+/-- `c16.summaryquit N kinds` → `<model>|<spec>` for the Summary printer's sink (counts matches only). -/
+def handleSummaryQuit (args : List Sx) : String :=
+  match args with
+  | [n, .atom kinds] =>
+    match n.nat?, kinds.toList.mapM kindEvent with
+    | some n, some evs =>
+      optNat (MaxCount.firstFalse 0 (MaxCount.summaryAnswers (some n) 0 evs)) ++ "|" ++ optNat (MaxCount.quitIndex n 0 evs)
+    | _, _ => "bad-op"
+  | _ => "bad-op"
+
 /-- Request handler of property C16: `c16.model cfg matcher inp sink` (M; the spec side of C16 is the
 prefix rule, computed by the harness from the uninterrupted model/impl run), `c16.path cfg matcher`. -/
 def handle (cmd : String) (args : List Sx) : String :=
@@ -36,6 +46,7 @@ def handle (cmd : String) (args : List Sx) : String :=
   | "c16.spec" => handleSpec args
   | "c16.path" => handlePath args
   | "c16.quitindex" => handleQuitIndex args
+  | "c16.summaryquit" => handleSummaryQuit args
   | _ => "bad-op"
 
 end RgVerif.Driver.C16
